@@ -341,20 +341,42 @@ func (f Fed) FederatingCallbacks(c context.Context) (pub.FederatingWrappedCallba
 	}
 	wr := pub.FederatingWrappedCallbacks{OnFollow: pub.OnFollowBehavior(w.Cfg.OnFollow)}
 	if w.Cfg.FedWrapped {
-		wr.Create = func(c context.Context, a vocab.ActivityStreamsCreate) error { return w.cb(c, "cb.fed.wrapped.Create", idOf(a)) }
-		wr.Update = func(c context.Context, a vocab.ActivityStreamsUpdate) error { return w.cb(c, "cb.fed.wrapped.Update", idOf(a)) }
-		wr.Delete = func(c context.Context, a vocab.ActivityStreamsDelete) error { return w.cb(c, "cb.fed.wrapped.Delete", idOf(a)) }
-		wr.Follow = func(c context.Context, a vocab.ActivityStreamsFollow) error { return w.cb(c, "cb.fed.wrapped.Follow", idOf(a)) }
-		wr.Accept = func(c context.Context, a vocab.ActivityStreamsAccept) error { return w.cb(c, "cb.fed.wrapped.Accept", idOf(a)) }
-		wr.Reject = func(c context.Context, a vocab.ActivityStreamsReject) error { return w.cb(c, "cb.fed.wrapped.Reject", idOf(a)) }
-		wr.Add = func(c context.Context, a vocab.ActivityStreamsAdd) error { return w.cb(c, "cb.fed.wrapped.Add", idOf(a)) }
-		wr.Remove = func(c context.Context, a vocab.ActivityStreamsRemove) error { return w.cb(c, "cb.fed.wrapped.Remove", idOf(a)) }
-		wr.Like = func(c context.Context, a vocab.ActivityStreamsLike) error { return w.cb(c, "cb.fed.wrapped.Like", idOf(a)) }
+		wr.Create = func(c context.Context, a vocab.ActivityStreamsCreate) error {
+			return w.cb(c, "cb.fed.wrapped.Create", idOf(a))
+		}
+		wr.Update = func(c context.Context, a vocab.ActivityStreamsUpdate) error {
+			return w.cb(c, "cb.fed.wrapped.Update", idOf(a))
+		}
+		wr.Delete = func(c context.Context, a vocab.ActivityStreamsDelete) error {
+			return w.cb(c, "cb.fed.wrapped.Delete", idOf(a))
+		}
+		wr.Follow = func(c context.Context, a vocab.ActivityStreamsFollow) error {
+			return w.cb(c, "cb.fed.wrapped.Follow", idOf(a))
+		}
+		wr.Accept = func(c context.Context, a vocab.ActivityStreamsAccept) error {
+			return w.cb(c, "cb.fed.wrapped.Accept", idOf(a))
+		}
+		wr.Reject = func(c context.Context, a vocab.ActivityStreamsReject) error {
+			return w.cb(c, "cb.fed.wrapped.Reject", idOf(a))
+		}
+		wr.Add = func(c context.Context, a vocab.ActivityStreamsAdd) error {
+			return w.cb(c, "cb.fed.wrapped.Add", idOf(a))
+		}
+		wr.Remove = func(c context.Context, a vocab.ActivityStreamsRemove) error {
+			return w.cb(c, "cb.fed.wrapped.Remove", idOf(a))
+		}
+		wr.Like = func(c context.Context, a vocab.ActivityStreamsLike) error {
+			return w.cb(c, "cb.fed.wrapped.Like", idOf(a))
+		}
 		wr.Announce = func(c context.Context, a vocab.ActivityStreamsAnnounce) error {
 			return w.cb(c, "cb.fed.wrapped.Announce", idOf(a))
 		}
-		wr.Undo = func(c context.Context, a vocab.ActivityStreamsUndo) error { return w.cb(c, "cb.fed.wrapped.Undo", idOf(a)) }
-		wr.Block = func(c context.Context, a vocab.ActivityStreamsBlock) error { return w.cb(c, "cb.fed.wrapped.Block", idOf(a)) }
+		wr.Undo = func(c context.Context, a vocab.ActivityStreamsUndo) error {
+			return w.cb(c, "cb.fed.wrapped.Undo", idOf(a))
+		}
+		wr.Block = func(c context.Context, a vocab.ActivityStreamsBlock) error {
+			return w.cb(c, "cb.fed.wrapped.Block", idOf(a))
+		}
 	}
 	return wr, w.otherCallbacks("fed", w.Cfg.FedOther), nil
 }
@@ -368,15 +390,33 @@ func (s Social) SocialCallbacks(c context.Context) (pub.SocialWrappedCallbacks, 
 	}
 	wr := pub.SocialWrappedCallbacks{}
 	if w.Cfg.SocWrapped {
-		wr.Create = func(c context.Context, a vocab.ActivityStreamsCreate) error { return w.cb(c, "cb.social.wrapped.Create", idOf(a)) }
-		wr.Update = func(c context.Context, a vocab.ActivityStreamsUpdate) error { return w.cb(c, "cb.social.wrapped.Update", idOf(a)) }
-		wr.Delete = func(c context.Context, a vocab.ActivityStreamsDelete) error { return w.cb(c, "cb.social.wrapped.Delete", idOf(a)) }
-		wr.Follow = func(c context.Context, a vocab.ActivityStreamsFollow) error { return w.cb(c, "cb.social.wrapped.Follow", idOf(a)) }
-		wr.Add = func(c context.Context, a vocab.ActivityStreamsAdd) error { return w.cb(c, "cb.social.wrapped.Add", idOf(a)) }
-		wr.Remove = func(c context.Context, a vocab.ActivityStreamsRemove) error { return w.cb(c, "cb.social.wrapped.Remove", idOf(a)) }
-		wr.Like = func(c context.Context, a vocab.ActivityStreamsLike) error { return w.cb(c, "cb.social.wrapped.Like", idOf(a)) }
-		wr.Undo = func(c context.Context, a vocab.ActivityStreamsUndo) error { return w.cb(c, "cb.social.wrapped.Undo", idOf(a)) }
-		wr.Block = func(c context.Context, a vocab.ActivityStreamsBlock) error { return w.cb(c, "cb.social.wrapped.Block", idOf(a)) }
+		wr.Create = func(c context.Context, a vocab.ActivityStreamsCreate) error {
+			return w.cb(c, "cb.social.wrapped.Create", idOf(a))
+		}
+		wr.Update = func(c context.Context, a vocab.ActivityStreamsUpdate) error {
+			return w.cb(c, "cb.social.wrapped.Update", idOf(a))
+		}
+		wr.Delete = func(c context.Context, a vocab.ActivityStreamsDelete) error {
+			return w.cb(c, "cb.social.wrapped.Delete", idOf(a))
+		}
+		wr.Follow = func(c context.Context, a vocab.ActivityStreamsFollow) error {
+			return w.cb(c, "cb.social.wrapped.Follow", idOf(a))
+		}
+		wr.Add = func(c context.Context, a vocab.ActivityStreamsAdd) error {
+			return w.cb(c, "cb.social.wrapped.Add", idOf(a))
+		}
+		wr.Remove = func(c context.Context, a vocab.ActivityStreamsRemove) error {
+			return w.cb(c, "cb.social.wrapped.Remove", idOf(a))
+		}
+		wr.Like = func(c context.Context, a vocab.ActivityStreamsLike) error {
+			return w.cb(c, "cb.social.wrapped.Like", idOf(a))
+		}
+		wr.Undo = func(c context.Context, a vocab.ActivityStreamsUndo) error {
+			return w.cb(c, "cb.social.wrapped.Undo", idOf(a))
+		}
+		wr.Block = func(c context.Context, a vocab.ActivityStreamsBlock) error {
+			return w.cb(c, "cb.social.wrapped.Block", idOf(a))
+		}
 	}
 	return wr, w.otherCallbacks("social", w.Cfg.SocOther), nil
 }
@@ -457,6 +497,8 @@ type RW struct {
 	Body         []byte
 	Writes       int
 	WriteBeforeH bool
+	WriteFail    string // "", "error", "short"
+	WriteFailed  bool
 }
 
 func NewRW() *RW { return &RW{H: http.Header{}} }
@@ -473,6 +515,17 @@ func (r *RW) Write(b []byte) (int, error) {
 		r.WriteBeforeH = true
 	}
 	r.Writes++
+	switch r.WriteFail {
+	case "error":
+		r.WriteFailed = true
+		return 0, fmt.Errorf("verif-sim: ResponseWriter.Write failed (connection closed)")
+	case "short":
+		if len(b) > 0 {
+			r.WriteFailed = true
+			r.Body = append(r.Body, b[:len(b)-1]...)
+			return len(b) - 1, nil
+		}
+	}
 	r.Body = append(r.Body, b...)
 	return len(b), nil
 }
